@@ -171,8 +171,44 @@ func judgeObligations(m *Model, seqs map[seqKey][]*Attempt, sendResolvedOf func(
 				continue
 			}
 			end := a.Done.Add(rt.RepeatInterval + rt.GroupInterval + deliverySlack)
-			if end.After(tr.End) || !m.noDisruption(a.Flush, end) || stateLoss(a.Flush, end) {
+			if end.After(tr.End) || stateLoss(a.Flush, end) {
 				continue
+			}
+			if !m.noDisruption(a.Flush, end) {
+				// one config reload R in the window (no restart), same timers for this route before and after: the new
+				// dispatcher rebuilds the group from the provider's alerts; its first flush comes at once when the
+				// alerts are older than group_wait, else after group_wait, and then every group_interval. The repeat is
+				// therefore due by max(previous delivery + repeat_interval, R + that wait) + group_interval.
+				var rl []time.Time
+				for _, r := range m.Reloads {
+					if !r.Before(a.Flush) && !r.After(end) {
+						rl = append(rl, r)
+					}
+				}
+				if len(rl) != 1 || !m.noDisruption(a.Flush, rl[0].Add(-time.Nanosecond)) {
+					continue
+				}
+				R := rl[0]
+				rt2, members2 := m.GroupMembers(m.CfgAt(R), a.RouteID, a.GroupKey)
+				if rt2.ID == "" || rt2.GroupWait != rt.GroupWait || rt2.GroupInterval != rt.GroupInterval || rt2.RepeatInterval != rt.RepeatInterval || len(members2) != len(members) {
+					continue
+				}
+				if rc := m.CfgAt(R).ReceiverByName(a.Receiver); rc == nil || rc.ByID(a.Idx) == nil {
+					continue
+				}
+				wait := time.Duration(0)
+				for mk := range f {
+					if v := m.Alerts.At(mk, R); v == nil || !v.Start.Add(rt.GroupWait).Before(R) {
+						wait = rt.GroupWait
+					}
+				}
+				if e2 := R.Add(wait + rt.GroupInterval + deliverySlack); e2.After(end) {
+					end = e2
+				}
+				if end.After(tr.End) || !m.noDisruption(R.Add(time.Nanosecond), end) {
+					continue
+				}
+				st.RepeatAcrossReload++
 			}
 			if !m.accepts(a.Receiver, a.Idx, a.Flush, end, slowSlack) || m.longInFlight(a.GroupKey, a.Done, end) {
 				continue
@@ -236,7 +272,8 @@ func judgeObligations(m *Model, seqs map[seqKey][]*Attempt, sendResolvedOf func(
 					if rtu, _ := m.GroupMembers(m.CfgAt(u), s[0].RouteID, k.GroupKey); rtu.ID != "" {
 						rt = rtu
 					}
-					end := u.Add(rt.GroupInterval + deliverySlack)
+					// the next flush: one group_interval away, or group_wait when the group was just re-created by a re-send
+					end := u.Add(maxDur(rt.GroupWait, rt.GroupInterval) + deliverySlack)
 					if end.After(tr.End) || m.longInFlight(k.GroupKey, u, end) {
 						continue
 					}
@@ -307,8 +344,8 @@ func judgeObligations(m *Model, seqs map[seqKey][]*Attempt, sendResolvedOf func(
 						}
 					}
 					if !found {
-						add(pbt.V("resolved-not-reported", "%v: %s was reported firing at %s, resolved at %s and stayed resolved and unsuppressed; %s/%d accepted deliveries from %s, but no notification listing it as resolved was delivered by %s (group_interval %s + %s)",
-							k, mk, p.Done.Format(tf), r.Format(tf), k.Receiver, k.Idx, u.Format(tf), end.Format(tf), rt.GroupInterval, deliverySlack).With("key", mk))
+						add(pbt.V("resolved-not-reported", "%v: %s was reported firing at %s, resolved at %s and stayed resolved and unsuppressed; %s/%d accepted deliveries from %s, but no notification listing it as resolved was delivered by %s (max(group_wait, group_interval) %s + %s)",
+							k, mk, p.Done.Format(tf), r.Format(tf), k.Receiver, k.Idx, u.Format(tf), end.Format(tf), maxDur(rt.GroupWait, rt.GroupInterval), deliverySlack).With("key", mk))
 					}
 				}
 			}
